@@ -193,6 +193,38 @@ fn zst_case(n: usize, mask: u32, mode: u8) -> Result<(), String> {
             return Err(format!("{}: after dropping both clones {} zero-sized elements are live, expected {n}", what(), zlive()));
         }
     }
+    // iterators over zero-sized elements: exact lengths at every step, next / fold / for_each agree
+    {
+        use crate::mapprobes::{drive, Tail};
+        let z = |_: &ZTok| (0u8, 0u32, 0u32);
+        let zm = |_: &mut ZTok| (0u8, 0u32, 0u32);
+        let zo = |_: ZTok| (0u8, 0u32, 0u32);
+        let mut js = vec![0usize, 1, n / 2, n, n + 1];
+        js.sort_unstable();
+        js.dedup();
+        for &j in &js {
+            for tail in [Tail::Next, Tail::Fold, Tail::ForEach] {
+                let k = drive(t.iter(), n, j, tail, "HashTable<zero-sized>::iter()", &z)?.len();
+                let km = drive(t.iter_mut(), n, j, tail, "HashTable<zero-sized>::iter_mut()", &zm)?.len();
+                let ko = drive(t.clone().into_iter(), n, j, tail, "HashTable<zero-sized>::into_iter()", &zo)?.len();
+                let mut c = t.clone();
+                let kd = drive(c.drain(), n, j, tail, "HashTable<zero-sized>::drain()", &zo)?.len();
+                if [k, km, ko, kd] != [n; 4] || !c.is_empty() {
+                    return Err(format!("{}: iterators yielded {:?} elements, expected {n} each", what(), [k, km, ko, kd]));
+                }
+            }
+            let mut c = t.clone();
+            drop(drive(c.drain(), n, j, Tail::DropNow, "HashTable<zero-sized>::drain() dropped early", &zo)?);
+            if !c.is_empty() {
+                return Err(format!("{}: drain() dropped after {j} items left {} elements", what(), c.len()));
+            }
+            drop(c);
+            drop(drive(t.clone().into_iter(), n, j, Tail::DropNow, "HashTable<zero-sized>::into_iter() dropped early", &zo)?);
+            if zlive() != n as i64 {
+                return Err(format!("{}: after partly consumed owning iterators {} zero-sized elements are live, expected {n}", what(), zlive()));
+            }
+        }
+    }
     let mut visit = 0u32;
     let mut removed = 0usize;
     match mode {
